@@ -5,7 +5,7 @@
 From Coq Require Import ZArith List.
 From Emmet Require Import lib.Base model.MarkupConvert model.OutStream model.FormatHtml proofs.HtmlEvents
      proofs.FormatSteps proofs.FormatProofs proofs.FormatChunks proofs.FormatTabstops proofs.FormatCosmetic proofs.FormatDepth proofs.FormatSelfClose
-     proofs.FormatLines proofs.FormatDepthFull.
+     proofs.FormatLines proofs.FormatDepthFull proofs.FormatSelfCloseFull.
 
 (* SPEC.
    fchunks st      the callback invocations of a run, positions erased: CT text | CF index placeholder
@@ -68,6 +68,22 @@ Theorem selfclose_local_partial c s1 s2 children :
                                (fchunks (html_format (with_style s2 c) children)).
 Proof. exact (fun Hc => selfclose_exact_lemma c s1 s2 Hc children). Qed.
 Print Assumptions selfclose_local_partial.
+
+(* C12_selfclose_local (FULL on its exact domain, proofs/FormatSelfCloseFull.v): for ALL trees, ALL pairs of styles
+   and ALL option records with compactBoolean off.
+     close_chunk s      the chunk that closes a self-closed tag under style s: ` />` (xhtml), `/>` (xml), `>` (any other)
+     Differ x y k X Y   the chunk lists X and Y are equal chunk by chunk (blanks, line breaks and tabstop numbers
+                        included), except at exactly k positions where X has x and Y has y
+     nvoid E            the number of elements of the tree that are written self-closed (events SOpen _ true)
+   The two streams are equal except that at exactly one position per self-closed element the closing chunk of style 1
+   faces the closing chunk of style 2.  With output.compactBoolean on the statement is false on the code
+   (selfclose_compact_boolean_refuted, known finding C12:selfclose-compact-boolean): the hypothesis is the exact domain. *)
+Theorem C12_selfclose_local c s1 s2 children :
+  oc_compact_boolean c = false ->
+  Differ (close_chunk s1) (close_chunk s2) (nvoid (flat_map (tree_events c) children))
+         (fchunks (html_format (with_style s1 c) children)) (fchunks (html_format (with_style s2 c) children)).
+Proof. exact (selfclose_local_full_lemma c s1 s2 children). Qed.
+Print Assumptions C12_selfclose_local.
 
 (* indent_is_depth.  Full statement: with formatting on and no element exempted through formatSkip,
    every line after the first starts with baseIndent plus one indent unit per element open at that
@@ -311,3 +327,11 @@ Proof.
     let X' := eval vm_compute in X in exists (firstn 2 X'), (skipn 3 X'), (skipn 4 X') end.
   split; [vm_compute; reflexivity|]. split; [left; vm_compute; reflexivity|]. split; vm_compute; reflexivity.
 Qed.
+
+(* Non-vacuity of C12_selfclose_local: <div><br/></div> under html and xhtml: one differing position, `>` against ` />`. *)
+Example selfclose_nonvacuous :
+  let t := [ANode (Some [100;105;118]%N) None None None [ANode (Some [98;114]%N) None None None [] true] false] in
+  oc_compact_boolean ex_c1 = false /\ nvoid (flat_map (tree_events ex_c1) t) = 1 /\
+  close_chunk s_html = CT false [62%N] /\ close_chunk s_xhtml = CT false [32;47;62]%N /\
+  fchunks (html_format (with_style s_html ex_c1) t) <> fchunks (html_format (with_style s_xhtml ex_c1) t).
+Proof. cbv zeta. repeat split; try reflexivity. vm_compute. discriminate. Qed.
